@@ -5,6 +5,12 @@
 (* its capacity plus a constant, however long the history - i.e. at a sample   *)
 (* the list links the live entries and one sentinel, nothing removed, nothing   *)
 (* pinned, and the live entries do not exceed the capacity.                     *)
+(* GcProbe lines: reachability as the garbage collector sees it - keys and       *)
+(* values were pointers with finalizers; `removed` entries left the container    *)
+(* (map: Remove with every iterator closed again; cache: eviction, Remove,        *)
+(* Clear) and nothing else refers to them: every one of their keys and values     *)
+(* was finalized after a few collections, whatever private structure the          *)
+(* implementation keeps (pool, free list, index).                                  *)
 EXTENDS TraceLib
 
 VARIABLE l
@@ -19,8 +25,16 @@ SampleOK(e) ==
     /\ e.inflight = 0
     /\ e.stale = 0          \* no node outside the live entries still references a removed value
 
+\* "plus a constant": two entries of slack (the implementation's trailing list node keeps the key of the entry that used
+\* it last); what the property excludes is retention that grows with the history
+GcSlack(e) == 2
+GcOK(e) == /\ e.keys_collected >= e.removed - GcSlack(e)
+           /\ e.vals_collected >= e.removed - GcSlack(e)
+           /\ e.len = e.live
+
 Init == l = 1
-Next == l <= Len(Trace) /\ SampleOK(Ev) /\ l' = l + 1
+Next == /\ l <= Len(Trace) /\ l' = l + 1
+        /\ IF Ev.op = "GcProbe" THEN GcOK(Ev) ELSE SampleOK(Ev)
 Spec == Init /\ [][Next]_l
 Accepted == AcceptByDiameter
 =============================================================================
